@@ -92,6 +92,10 @@ func supervise(t *testing.T, out string) {
 		cmd := exec.Command(os.Args[0], "-test.run", "^TestRace$", "-test.count=1", "-test.v")
 		cmd.Env = append(os.Environ(), "RACE_CHILD=1", "RACE_OUT="+childOut,
 			fmt.Sprintf("RACE_MS=%d", left.Milliseconds()), fmt.Sprintf("RACE_SEED=%d", childSeed))
+		if run == 0 && left > 8*time.Second {
+			// first a short child with nothing but slow-acknowledgement scenarios (scenario.go, RACE_ONLY)
+			cmd.Env = append(cmd.Env, "RACE_ONLY=longslow", "RACE_MS=4500")
+		}
 		var buf bytes.Buffer
 		cmd.Stdout, cmd.Stderr = &buf, &buf
 		childStart := time.Now()
